@@ -52,6 +52,10 @@ def content_bytes(rec, B, resolve=None):
         return _compressible(seed, size)
     if k == "zero":
         return b"\0" * size
+    if k == "rep":
+        # one random block repeated: a file is a block-wise repetition / prefix of another one with the same seed
+        x = _rand_bytes(seed + 5000, B)
+        return (x * (size // B + 1))[:size]
     if k == "cat":
         # leading blocks from one stream, the tail (size % B) from another: files can share only a tail
         lead = rec[2] * B
@@ -127,6 +131,8 @@ def xattr_sets(max_keys=4, prefixes=(b"user.", b"trusted.", b"security.")):
     val = st.one_of(
         st.binary(min_size=1, max_size=24),
         st.sampled_from([b"v", b"shared-long-value-" * 8, b"\0", b"\xff" * 40, b"a b\"c\\d", b"0x1234", b"0sQUJD", b"x" * 300]),
+        # lengths around the points where a PAX record length gains a digit (100, 1000) and around 8 / 256 byte limits
+        st.tuples(st.one_of(st.integers(55, 100), st.integers(940, 1000), st.sampled_from([7, 8, 9, 255, 256, 257])), st.integers(33, 126)).map(lambda t: bytes([t[1]]) * t[0]),
     )
     return st.dictionaries(key, val, max_size=max_keys)
 
@@ -135,7 +141,7 @@ def content_recipes(nfiles_so_far):
     small = st.binary(max_size=40).map(lambda b: ("lit", b))
     delta = st.sampled_from([-1, 0, 1])
     kb = st.sampled_from([0, 1, 1, 1, 2, 2, 3])
-    kinds = st.sampled_from(["rand", "text", "zero", "mix", "cat"])
+    kinds = st.sampled_from(["rand", "text", "zero", "mix", "cat", "rep"])
     seeds = st.integers(0, 6)   # few seeds: equal seeds give shared leading blocks / duplicate files / shared tails
     sized = st.tuples(kinds, seeds, kb, st.one_of(delta, delta, st.integers(2, 4000)),
                       st.lists(st.integers(0, 3), min_size=1, max_size=4), st.integers(0, 3)).map(list).map(
@@ -181,6 +187,11 @@ def trees(draw, max_nodes=18, mode="dir", want_xattrs=True, want_special=True, w
             prev = [x for x in nodes if x["type"] == "file" and x["content"][0] != "lit"]
             if prev and draw(st.integers(0, 5)) == 0:
                 node["content"] = draw(st.sampled_from(prev))["content"]   # exact duplicate of an earlier file
+            elif draw(st.integers(0, 7)) == 0:
+                # periodic data, longer than / repeating an earlier periodic file: block runs that overlap themselves
+                reps = [x["content"] for x in prev if x["content"][0] == "rep"]
+                base = reps[-1] if reps else ("rep", draw(st.integers(0, 3)), 1, 0)
+                node["content"] = ("rep", base[1], base[2] + draw(st.integers(0, 2)), draw(st.sampled_from([0, 0, 1, 100])))
             else:
                 node["content"] = draw(content_recipes(len(files)))
             files.append(path)
@@ -289,7 +300,7 @@ def materialise_dir(nodes, root, B, set_times=True):
 
 # ------------------------------------------------------------------ pack file writer (documented quoting only)
 def pf_quote(b, force=False):
-    need = force or b == b"" or any(c in b for c in b" \t\"\\") or b.startswith(b"#")
+    need = force or b == b"" or any(c in b for c in b" \t\r\v\f\"\\") or b.startswith(b"#")
     if not need:
         return b
     return b'"' + b.replace(b"\\", b"\\\\").replace(b'"', b'\\"') + b'"'
